@@ -1,12 +1,12 @@
 CONSTANTS
-  W = 2
+  W = 3
   Limit = 1
   L = 2
   Uds = {2}
-  MaxConns = 2
-  MaxFaults = 0
-  MaxCmds = 3
-  MaxErrs = 1
+  MaxConns = 4
+  MaxFaults = 2
+  MaxCmds = 0
+  MaxErrs = 0
   MaxBare = 0
   WakeAt = 2
   IgnoreUnknownIdx = TRUE
